@@ -634,8 +634,8 @@ class Array(metaclass=MetaArray):
         if hasattr(self._itemtype, "_dtype"):
             arr = self._buffer.to_nplike(
                 self._offset + self._data_offset, self._itemtype._dtype, cshape
-            ).transpose(self._order)
-            assert arr.strides == self._strides
+            ).transpose(np.argsort(self._order))
+            assert arr.size == 0 or arr.strides == tuple(self._strides)
             return arr
         else:
             raise NotImplementedError
@@ -646,8 +646,8 @@ class Array(metaclass=MetaArray):
         if hasattr(self._itemtype, "_dtype"):
             arr = self._buffer.to_nparray(
                 self._offset + self._data_offset, self._itemtype._dtype, cshape
-            ).transpose(self._order)
-            assert arr.strides == self._strides
+            ).transpose(np.argsort(self._order))
+            assert arr.size == 0 or arr.strides == tuple(self._strides)
             return arr
         else:
             raise NotImplementedError
